@@ -118,7 +118,7 @@ pub fn c12(ctx: &Ctx, rep: &mut Report) {
                     let mut j = ctx.replay_json(idx);
                     j["rendering"] = json!(name);
                     j["input"] = json!(show(&input));
-                    j["input_hex"] = json!(gen::hex(&input));
+                    j["input_hex"] = json!(gen::hex_limited(&input));
                     j["capacity"] = json!(cap);
                     j
                 };
@@ -414,7 +414,7 @@ pub fn c13(ctx: &Ctx, rep: &mut Report) {
         let replay = || {
             let mut j = ctx.replay_json(idx);
             j["input"] = json!(show(&bytes));
-            j["input_hex"] = json!(gen::hex(&bytes));
+            j["input_hex"] = json!(gen::hex_limited(&bytes));
             j["capacity"] = json!(cap);
             j
         };
@@ -878,7 +878,7 @@ pub fn c19(ctx: &Ctx, rep: &mut Report) {
         let exact = if rng.chance(1, 3) { Some(1 + rng.below(5)) } else { None };
         let mut j = replay.clone();
         j["input"] = json!(show(&bytes));
-        j["input_hex"] = json!(gen::hex(&bytes));
+        j["input_hex"] = json!(gen::hex_limited(&bytes));
         j["capacity"] = json!(cap);
         j["exact"] = json!(exact);
         let res = guarded(|| -> Result<(u64, u64, usize), String> {
